@@ -131,13 +131,15 @@ func (p *probeRT) waitStart() {
 func (p *probeRT) sourceStream(done chan struct{}) ([]byte, []spec.SegGeo) {
 	w := p.w
 	for i := 0; i < 4000; i++ {
-		b, g := w.Tap.streamOfClient(p.p.Source)
-		ok := len(g) > 0
+		// (cheap test first: streamOfClient copies everything recorded so far)
+		ok := w.Tap.hasAnsweredStream(p.p.Source)
 		if p.p.AfterEnd {
 			ok = ok && w.clientSessionsEnded(p.p.Source)
 		}
 		if ok {
-			return b, g
+			if b, g := w.Tap.streamOfClient(p.p.Source); len(g) > 0 {
+				return b, g
+			}
 		}
 		select {
 		case <-done:
@@ -152,13 +154,14 @@ func (p *probeRT) sourceStream(done chan struct{}) ([]byte, []spec.SegGeo) {
 func (p *probeRT) sourceDatagrams(done chan struct{}) [][]byte {
 	w := p.w
 	for i := 0; i < 4000; i++ {
-		ds := w.Tap.datagramsOfClient(p.p.Source)
-		ok := len(ds) > 0
+		ok := true
 		if p.p.AfterEnd {
-			ok = ok && w.clientSessionsEnded(p.p.Source)
+			ok = w.clientSessionsEnded(p.p.Source)
 		}
 		if ok {
-			return ds
+			if ds := w.Tap.datagramsOfClient(p.p.Source); len(ds) > 0 {
+				return ds
+			}
 		}
 		select {
 		case <-done:
